@@ -159,7 +159,8 @@ Definition acc_security_gen (add : N -> N -> res N) (f : fmt) (file : bool) (m :
     e <- add (fst d) (snd d) ;;
     match get_range (m_len m) (fst d) e with Some r => Ok r | None => Err EBounds end.
 Definition acc_security_orig := acc_security_gen (chk_add W32).
-Definition acc_security := acc_security_gen (fun a b => match checked_add W32 a b with Some e => Ok e | None => Err EBounds end).
+(* after the F8 repair: the end offset is a usize checked_add *)
+Definition acc_security := acc_security_gen (fun a b => match checked_add W64 a b with Some e => Ok e | None => Err EOverflow end).
 
 (* `.ok()` then Serialize for Option: null exactly for None *)
 Definition json_is_null {A} (r : res A) : bool := match r with Ok _ => false | _ => true end.
